@@ -312,6 +312,14 @@ partial def handle (E : Env) (line : String) : Env × String :=
       let b := match r with | .borrowed _ => "1" | .owned _ => "0"
       (E, s!"ok {toHex (Hand.poolThreads e)} {b}")
     | _, _, _ => (E, "bad-request pool arguments")
+  | ["pool", phys, nt, nc, compat, omp, ob, dbg] =>
+    match parseHex phys, decodeEnv nt, decodeEnv nc, decodeEnv omp, decodeEnv ob, decodeEnv dbg with
+    | some p, some ntv, some ncv, some ompv, some obv, some dbgv =>
+      let e : Hand.PoolEnv := { numThreads := ntv, noCache := ncv, noPinning := none, physical := p, compat := compat == "1", ompThreads := ompv, openblasThreads := obv, debug := dbgv }
+      let r := (Hand.getOrInitPool e Hand.PoolState.init).2
+      let b := match r with | .borrowed _ => "1" | .owned _ => "0"
+      (E, s!"ok {toHex (Hand.poolThreads e)} {b}")
+    | _, _, _, _, _, _ => (E, "bad-request pool arguments")
   | ["pin", dbg, avail, threads] =>
     match parseHex avail, parseHex threads with
     | some a, some t =>
